@@ -7,6 +7,619 @@ import OLP.KV.Refine
 namespace OLP.Shell
 open OLP OLP.KV
 
+set_option linter.unusedSectionVars false
+
 variable {K V C E α T H D : Type} [DecidableEq K] [DecidableEq V] [DecidableEq C] [DecidableEq H]
+
+deriving instance DecidableEq for CallOut
+
+/-! ### programs -/
+
+/-- no program operation ever touches the tree -/
+theorem run_tree (cfg : Cfg K V) (p : Prog K V C E α) (s : St K V) (m : Vol C V) (e : E) :
+    (p.run cfg s m e).2.1.tree = s.tree := by
+  induction p generalizing s m with
+  | ret a => rfl
+  | fail => rfl
+  | get k κ ih => exact (ih _ _ _).trans (get_gasOnly cfg s k).1
+  | has k κ ih => exact (ih _ _ _).trans (has_gasOnly cfg s k).1
+  | set k v κ ih => exact (ih _ _ _).trans (set_data cfg s k v).1
+  | del k κ ih => exact (ih _ _).trans (del_data cfg s k).1
+  | iter lo hi asc κ ih => exact (ih _ _ _).trans (iter_gasOnly cfg s lo hi asc).1
+  | getv ver k κ ih => exact ih _ _ _
+  | gas κ ih => exact ih _ _ _
+  | burn a κ ih => exact ih _ _
+  | vget c κ ih => exact ih _ _ _
+  | vset c v κ ih => exact ih _ _
+  | env κ ih => exact ih _ _ _
+
+/-- a program that never consults the environment behaves the same in every environment -/
+theorem run_env (cfg : Cfg K V) (p : Prog K V C E α) (h : p.EnvFree) (s : St K V) (m : Vol C V)
+    (e₁ e₂ : E) : p.run cfg s m e₁ = p.run cfg s m e₂ := by
+  induction p generalizing s m with
+  | ret a => rfl
+  | fail => rfl
+  | get k κ ih => exact ih _ (h _) _ _
+  | has k κ ih => exact ih _ (h _) _ _
+  | set k v κ ih => exact ih _ (h _) _ _
+  | del k κ ih => exact ih h _ _
+  | iter lo hi asc κ ih => exact ih _ (h _) _ _
+  | getv ver k κ ih => exact ih _ (h _) _ _
+  | gas κ ih => exact ih _ (h _) _ _
+  | burn a κ ih => exact ih h _ _
+  | vget c κ ih => exact ih _ (h _) _ _
+  | vset c v κ ih => exact ih h _ _
+  | env κ ih => exact False.elim h
+
+/-- a program that writes no volatile cell hands back the volatile memory it was given -/
+theorem run_novset (cfg : Cfg K V) (p : Prog K V C E α) (h : p.NoVset) (s : St K V) (m : Vol C V)
+    (e : E) : (p.run cfg s m e).2.2 = m := by
+  induction p generalizing s m with
+  | ret a => rfl
+  | fail => rfl
+  | get k κ ih => exact ih _ (h _) _ _
+  | has k κ ih => exact ih _ (h _) _ _
+  | set k v κ ih => exact ih _ (h _) _ _
+  | del k κ ih => exact ih h _ _
+  | iter lo hi asc κ ih => exact ih _ (h _) _ _
+  | getv ver k κ ih => exact ih _ (h _) _ _
+  | gas κ ih => exact ih _ (h _) _ _
+  | burn a κ ih => exact ih h _ _
+  | vget c κ ih => exact ih _ (h _) _ _
+  | vset c v κ ih => exact False.elim h
+  | env κ ih => exact ih _ (h _) _ _
+
+/-! ### frame lemmas: what the ABCI calls leave alone -/
+
+variable (cfg : Cfg K V) (hs : Handlers K V C E T H D) (e : E)
+
+/-- closing the transaction session keeps the tree -/
+theorem finish_tree (ok : Bool) (s2 : St K V) :
+    (if ok then (match s2.csess with | some s => s | none => s2) else s2.dsess).tree = s2.tree := by
+  cases ok
+  · rfl
+  · simp only [if_true]
+    unfold St.csess
+    cases s2.sess <;> rfl
+
+theorem deliverTx_frame (n : Node K V C T H D) (tx : T) :
+    (deliverTx cfg hs e n tx).1.tree = n.tree ∧ (deliverTx cfg hs e n tx).1.idx = n.idx ∧
+    (deliverTx cfg hs e n tx).1.height = n.height ∧ (deliverTx cfg hs e n tx).1.closed = n.closed ∧
+    (deliverTx cfg hs e n tx).1.chk = n.chk := by
+  unfold deliverTx
+  split
+  · exact ⟨rfl, rfl, rfl, rfl, rfl⟩
+  · refine ⟨?_, rfl, rfl, rfl, rfl⟩
+    simp only []
+    refine (finish_tree _ _).trans ?_
+    rw [run_tree, run_tree]; rfl
+
+theorem checkTx_frame (n : Node K V C T H D) (tx : T) :
+    (checkTx cfg hs e n tx).1.tree = n.tree ∧ (checkTx cfg hs e n tx).1.dlv = n.dlv ∧
+    (checkTx cfg hs e n tx).1.idx = n.idx ∧ (checkTx cfg hs e n tx).1.height = n.height ∧
+    (checkTx cfg hs e n tx).1.closed = n.closed := by
+  unfold checkTx
+  split
+  · exact ⟨rfl, rfl, rfl, rfl, rfl⟩
+  · simp only []
+    split <;> exact ⟨rfl, rfl, rfl, rfl, rfl⟩
+
+theorem checkTx_vol (hnv : CheckNoVset hs) (n : Node K V C T H D) (tx : T) :
+    (checkTx cfg hs e n tx).1.vol = n.vol := by
+  obtain ⟨h1, h2, h3⟩ := hnv tx
+  unfold checkTx
+  split
+  · rfl
+  · simp only []
+    split
+    · exact run_novset cfg _ h1 _ _ _
+    · simp only []
+      rw [run_novset cfg _ (h3 _), run_novset cfg _ h2, run_novset cfg _ h1]
+
+theorem runHook_frameB (n : Node K V C T H D) (hk : Bool × Prog K V C E Unit) :
+    (runHook cfg e n hk).tree = n.tree ∧ (runHook cfg e n hk).idx = n.idx ∧
+    (runHook cfg e n hk).height = n.height ∧ (runHook cfg e n hk).closed = n.closed := by
+  unfold runHook
+  split <;> exact ⟨rfl, rfl, rfl, rfl⟩
+
+theorem hooks_frame (hks : List (Bool × Prog K V C E Unit)) (n : Node K V C T H D) :
+    (hks.foldl (runHook cfg e) n).tree = n.tree ∧ (hks.foldl (runHook cfg e) n).idx = n.idx ∧
+    (hks.foldl (runHook cfg e) n).height = n.height ∧
+    (hks.foldl (runHook cfg e) n).closed = n.closed := by
+  induction hks generalizing n with
+  | nil => exact ⟨rfl, rfl, rfl, rfl⟩
+  | cons hk t ih =>
+    rw [List.foldl_cons]
+    have h1 := ih (runHook cfg e n hk)
+    have h2 := runHook_frameB cfg e n hk
+    exact ⟨h1.1.trans h2.1, h1.2.1.trans h2.2.1, h1.2.2.1.trans h2.2.2.1, h1.2.2.2.trans h2.2.2.2⟩
+
+theorem beginBlock_frameB (n : Node K V C T H D) :
+    (beginBlock cfg hs e n).tree = n.tree ∧ (beginBlock cfg hs e n).idx = n.idx ∧
+    (beginBlock cfg hs e n).height = n.height ∧ (beginBlock cfg hs e n).closed = n.closed :=
+  hooks_frame cfg e _ _
+
+theorem endBlock_frameB (n : Node K V C T H D) :
+    (endBlock cfg hs e n).tree = n.tree ∧ (endBlock cfg hs e n).idx = n.idx ∧
+    (endBlock cfg hs e n).height = n.height ∧ (endBlock cfg hs e n).closed = n.closed :=
+  hooks_frame cfg e _ _
+
+theorem deliverAll_frame (txs : List T) (n : Node K V C T H D) :
+    (deliverAll cfg hs e n txs).1.tree = n.tree ∧ (deliverAll cfg hs e n txs).1.idx = n.idx ∧
+    (deliverAll cfg hs e n txs).1.height = n.height ∧
+    (deliverAll cfg hs e n txs).1.closed = n.closed := by
+  induction txs generalizing n with
+  | nil => exact ⟨rfl, rfl, rfl, rfl⟩
+  | cons tx t ih =>
+    have h1 := ih (deliverTx cfg hs e n tx).1
+    have h2 := deliverTx_frame cfg hs e n tx
+    simp only [deliverAll]
+    exact ⟨h1.1.trans h2.1, h1.2.1.trans h2.2.1, h1.2.2.1.trans h2.2.2.1,
+      h1.2.2.2.trans h2.2.2.2.1⟩
+
+theorem midBlock_frame (n : Node K V C T H D) (txs : List T) (k : Nat) (ended : Bool) :
+    (midBlock cfg hs e n txs k ended).tree = n.tree ∧ (midBlock cfg hs e n txs k ended).idx = n.idx ∧
+    (midBlock cfg hs e n txs k ended).height = n.height ∧
+    (midBlock cfg hs e n txs k ended).closed = n.closed := by
+  have h1 := beginBlock_frameB cfg hs e n
+  have h2 := deliverAll_frame cfg hs e (txs.take k) (beginBlock cfg hs e n)
+  have h12 := And.intro (h2.1.trans h1.1) (And.intro (h2.2.1.trans h1.2.1)
+    (And.intro (h2.2.2.1.trans h1.2.2.1) (h2.2.2.2.trans h1.2.2.2)))
+  unfold midBlock
+  simp only []
+  cases ended
+  · exact h12
+  · have h3 := endBlock_frameB cfg hs e (deliverAll cfg hs e (beginBlock cfg hs e n) (txs.take k)).1
+    exact ⟨h3.1.trans h12.1, h3.2.1.trans h12.2.1, h3.2.2.1.trans h12.2.2.1,
+      h3.2.2.2.trans h12.2.2.2⟩
+
+/-! ### independence of the environment -/
+
+theorem deliverTx_env (hf : AllEnvFree hs) (n : Node K V C T H D) (tx : T) (e₁ e₂ : E) :
+    deliverTx cfg hs e₁ n tx = deliverTx cfg hs e₂ n tx := by
+  obtain ⟨_, _, h3, h4⟩ := hf.1 tx
+  have hd : ∀ s m, (hs.deliver tx).run cfg s m e₁ = (hs.deliver tx).run cfg s m e₂ :=
+    fun s m => run_env cfg _ h3 s m e₁ e₂
+  have hfe : ∀ g s m, (hs.fee tx g).run cfg s m e₁ = (hs.fee tx g).run cfg s m e₂ :=
+    fun g s m => run_env cfg _ (h4 g) s m e₁ e₂
+  simp only [deliverTx, hd, hfe]
+
+theorem checkTx_env (hf : AllEnvFree hs) (n : Node K V C T H D) (tx : T) (e₁ e₂ : E) :
+    checkTx cfg hs e₁ n tx = checkTx cfg hs e₂ n tx := by
+  obtain ⟨h1, h2, _, h4⟩ := hf.1 tx
+  have hv : ∀ s m, (hs.validate tx).run cfg s m e₁ = (hs.validate tx).run cfg s m e₂ :=
+    fun s m => run_env cfg _ h1 s m e₁ e₂
+  have hc : ∀ s m, (hs.check tx).run cfg s m e₁ = (hs.check tx).run cfg s m e₂ :=
+    fun s m => run_env cfg _ h2 s m e₁ e₂
+  have hfe : ∀ g s m, (hs.fee tx g).run cfg s m e₁ = (hs.fee tx g).run cfg s m e₂ :=
+    fun g s m => run_env cfg _ (h4 g) s m e₁ e₂
+  simp only [checkTx, hv, hc, hfe]
+
+theorem runHook_env (n : Node K V C T H D) (hk : Bool × Prog K V C E Unit) (h : hk.2.EnvFree)
+    (e₁ e₂ : E) : runHook cfg e₁ n hk = runHook cfg e₂ n hk := by
+  have hh : ∀ s m, hk.2.run cfg s m e₁ = hk.2.run cfg s m e₂ :=
+    fun s m => run_env cfg _ h s m e₁ e₂
+  simp only [runHook, hh]
+
+theorem hooks_env (hks : List (Bool × Prog K V C E Unit)) (h : ∀ hk ∈ hks, hk.2.EnvFree)
+    (n : Node K V C T H D) (e₁ e₂ : E) :
+    hks.foldl (runHook cfg e₁) n = hks.foldl (runHook cfg e₂) n := by
+  induction hks generalizing n with
+  | nil => rfl
+  | cons hk t ih =>
+    rw [List.foldl_cons, List.foldl_cons, runHook_env cfg n hk (h hk List.mem_cons_self) e₁ e₂]
+    exact ih (fun x hx => h x (List.mem_cons_of_mem _ hx)) _
+
+theorem beginBlock_env (hf : AllEnvFree hs) (n : Node K V C T H D) (e₁ e₂ : E) :
+    beginBlock cfg hs e₁ n = beginBlock cfg hs e₂ n :=
+  hooks_env cfg _ (hf.2 _).1 _ e₁ e₂
+
+theorem endBlock_env (hf : AllEnvFree hs) (n : Node K V C T H D) (e₁ e₂ : E) :
+    endBlock cfg hs e₁ n = endBlock cfg hs e₂ n :=
+  hooks_env cfg _ (hf.2 _).2 _ e₁ e₂
+
+theorem deliverAll_env (hf : AllEnvFree hs) (txs : List T) (n : Node K V C T H D) (e₁ e₂ : E) :
+    deliverAll cfg hs e₁ n txs = deliverAll cfg hs e₂ n txs := by
+  induction txs generalizing n with
+  | nil => rfl
+  | cons tx t ih =>
+    simp only [deliverAll, deliverTx_env cfg hs hf n tx e₁ e₂, ih]
+
+theorem execBlock_env (hf : AllEnvFree hs) (n : Node K V C T H D) (txs : List T) (e₁ e₂ : E) :
+    execBlock cfg hs e₁ n txs = execBlock cfg hs e₂ n txs := by
+  simp only [execBlock, beginBlock_env cfg hs hf n e₁ e₂, deliverAll_env cfg hs hf txs _ e₁ e₂,
+    endBlock_env cfg hs hf _ e₁ e₂]
+
+theorem stepCall_env (hf : AllEnvFree hs) (r : Run K V C T H D) (c : Call T) (e₁ e₂ : E) :
+    stepCall cfg hs e₁ r c = stepCall cfg hs e₂ r c := by
+  cases c with
+  | begin => simp only [stepCall, beginBlock_env cfg hs hf _ e₁ e₂]
+  | deliver tx => simp only [stepCall, deliverTx_env cfg hs hf _ tx e₁ e₂]
+  | endb => simp only [stepCall, endBlock_env cfg hs hf _ e₁ e₂]
+  | commit txs => rfl
+  | check tx => simp only [stepCall, checkTx_env cfg hs hf _ tx e₁ e₂]
+
+/-! ### the consensus calls only look at the consensus part of a node -/
+
+theorem deliverTx_congr (n n' : Node K V C T H D) (h : n.consensus = n'.consensus) (tx : T) :
+    (deliverTx cfg hs e n tx).1.consensus = (deliverTx cfg hs e n' tx).1.consensus ∧
+    (deliverTx cfg hs e n tx).2 = (deliverTx cfg hs e n' tx).2 := by
+  obtain ⟨t, d, c, v, i, a, ht, cl⟩ := n
+  obtain ⟨t', d', c', v', i', a', ht', cl'⟩ := n'
+  simp only [Node.consensus, Consensus.mk.injEq] at h
+  obtain ⟨rfl, rfl, rfl, rfl, rfl⟩ := h
+  unfold deliverTx
+  simp only []
+  cases lookupIdx i (hs.hash tx) <;> exact ⟨rfl, rfl⟩
+
+theorem runHook_congr (n n' : Node K V C T H D) (h : n.consensus = n'.consensus)
+    (hk : Bool × Prog K V C E Unit) (hk1 : hk.1 = true) :
+    (runHook cfg e n hk).consensus = (runHook cfg e n' hk).consensus := by
+  obtain ⟨t, d, c, v, i, a, ht, cl⟩ := n
+  obtain ⟨t', d', c', v', i', a', ht', cl'⟩ := n'
+  simp only [Node.consensus, Consensus.mk.injEq] at h
+  obtain ⟨rfl, rfl, rfl, rfl, rfl⟩ := h
+  simp [runHook, hk1, Node.consensus]
+
+theorem hooks_congr (hks : List (Bool × Prog K V C E Unit)) (hall : ∀ hk ∈ hks, hk.1 = true)
+    (n n' : Node K V C T H D) (h : n.consensus = n'.consensus) :
+    (hks.foldl (runHook cfg e) n).consensus = (hks.foldl (runHook cfg e) n').consensus := by
+  induction hks generalizing n n' with
+  | nil => exact h
+  | cons hk t ih =>
+    rw [List.foldl_cons, List.foldl_cons]
+    exact ih (fun x hx => hall x (List.mem_cons_of_mem _ hx)) _ _
+      (runHook_congr cfg e n n' h hk (hall hk List.mem_cons_self))
+
+/-- "same tree, volatile memory, index and height": all that a whole block depends on -/
+def CEq (n n' : Node K V C T H D) : Prop :=
+  n.tree = n'.tree ∧ n.vol = n'.vol ∧ n.idx = n'.idx ∧ n.height = n'.height
+
+theorem CEq.of_consensus {n n' : Node K V C T H D} (h : n.consensus = n'.consensus) : CEq n n' := by
+  simp only [Node.consensus, Consensus.mk.injEq] at h
+  exact ⟨h.1, h.2.2.1, h.2.2.2.1, h.2.2.2.2⟩
+
+theorem beginBlock_congr (ha : AllAimed hs) (n n' : Node K V C T H D) (h : CEq n n') :
+    (beginBlock cfg hs e n).consensus = (beginBlock cfg hs e n').consensus := by
+  obtain ⟨h1, h2, h3, h4⟩ := h
+  unfold beginBlock
+  rw [h4]
+  apply hooks_congr cfg e _ (ha _).1
+  simp only [Node.consensus, h1, h2, h3]
+
+theorem endBlock_congr (ha : AllAimed hs) (n n' : Node K V C T H D)
+    (h : n.consensus = n'.consensus) :
+    (endBlock cfg hs e n).consensus = (endBlock cfg hs e n').consensus := by
+  have h4 : n.height = n'.height := (CEq.of_consensus h).2.2.2
+  unfold endBlock
+  rw [h4]
+  exact hooks_congr cfg e _ (ha _).2 _ _ h
+
+theorem commit_congr (n n' : Node K V C T H D) (h : n.consensus = n'.consensus) :
+    (commit cfg hs n).consensus = (commit cfg hs n').consensus := by
+  obtain ⟨t, d, c, v, i, a, ht, cl⟩ := n
+  obtain ⟨t', d', c', v', i', a', ht', cl'⟩ := n'
+  simp only [Node.consensus, Consensus.mk.injEq] at h
+  obtain ⟨rfl, rfl, rfl, rfl, rfl⟩ := h
+  rfl
+
+theorem deliverAll_congr (txs : List T) (n n' : Node K V C T H D)
+    (h : n.consensus = n'.consensus) :
+    (deliverAll cfg hs e n txs).1.consensus = (deliverAll cfg hs e n' txs).1.consensus ∧
+    (deliverAll cfg hs e n txs).2 = (deliverAll cfg hs e n' txs).2 := by
+  induction txs generalizing n n' with
+  | nil => exact ⟨h, rfl⟩
+  | cons tx t ih =>
+    have h1 := deliverTx_congr cfg hs e n n' h tx
+    have h2 := ih _ _ h1.1
+    simp only [deliverAll]
+    exact ⟨h2.1, by rw [h1.2, h2.2]⟩
+
+theorem checkTx_consensus (hnv : CheckNoVset hs) (n : Node K V C T H D) (tx : T) :
+    (checkTx cfg hs e n tx).1.consensus = n.consensus := by
+  have h := checkTx_frame cfg hs e n tx
+  have hv := checkTx_vol cfg hs e hnv n tx
+  simp only [Node.consensus, h.1, h.2.1, h.2.2.1, h.2.2.2.1, hv]
+
+theorem stepCall_congr (ha : AllAimed hs) (r r' : Run K V C T H D)
+    (h : r.node.consensus = r'.node.consensus) (hp : r.pending = r'.pending) (c : Call T)
+    (hc : c.isCheck = false) :
+    (stepCall cfg hs e r c).1.node.consensus = (stepCall cfg hs e r' c).1.node.consensus ∧
+    (stepCall cfg hs e r c).1.pending = (stepCall cfg hs e r' c).1.pending ∧
+    (stepCall cfg hs e r c).2 = (stepCall cfg hs e r' c).2 := by
+  cases c with
+  | begin => exact ⟨beginBlock_congr cfg hs e ha _ _ (CEq.of_consensus h), rfl, rfl⟩
+  | deliver tx =>
+    have h1 := deliverTx_congr cfg hs e _ _ h tx
+    simp only [stepCall]
+    exact ⟨h1.1, by rw [hp, h1.2], by rw [h1.2]⟩
+  | endb => exact ⟨endBlock_congr cfg hs e ha _ _ h, hp, rfl⟩
+  | commit txs =>
+    have h1 := commit_congr cfg hs _ _ h
+    have ht : r.node.tree = r'.node.tree := (CEq.of_consensus h).1
+    have h2 := CEq.of_consensus h1
+    simp only [stepCall]
+    refine ⟨?_, trivial, by rw [h2.1, ht]⟩
+    simp only [Node.consensus, Consensus.mk.injEq] at h1 ⊢
+    exact ⟨h1.1, h1.2.1, h1.2.2.1, by rw [h1.2.2.2.1, hp], h1.2.2.2.2⟩
+  | check tx => simp [Call.isCheck] at hc
+
+theorem runCalls_isolation (ha : AllAimed hs) (hnv : CheckNoVset hs) (calls : List (Call T))
+    (r r' : Run K V C T H D) (h : r.node.consensus = r'.node.consensus)
+    (hp : r.pending = r'.pending) :
+    (runCalls cfg hs e r calls).1.node.consensus =
+      (runCalls cfg hs e r' (calls.filter (fun c => !c.isCheck))).1.node.consensus ∧
+    (runCalls cfg hs e r calls).1.pending =
+      (runCalls cfg hs e r' (calls.filter (fun c => !c.isCheck))).1.pending ∧
+    (runCalls cfg hs e r calls).2.filter (fun o => !o.isChecked) =
+      (runCalls cfg hs e r' (calls.filter (fun c => !c.isCheck))).2 := by
+  induction calls generalizing r r' with
+  | nil => exact ⟨h, hp, rfl⟩
+  | cons c cs ih =>
+    by_cases hc : c.isCheck = true
+    · rw [List.filter_cons_of_neg (by simp [hc])]
+      cases c with
+      | check tx =>
+        have h1 : (stepCall cfg hs e r (.check tx)).1.node.consensus = r'.node.consensus :=
+          (checkTx_consensus cfg hs e hnv r.node tx).trans h
+        have h2 : (stepCall cfg hs e r (.check tx)).1.pending = r'.pending := hp
+        have := ih _ _ h1 h2
+        simp only [runCalls]
+        refine ⟨this.1, this.2.1, ?_⟩
+        rw [List.filter_cons_of_neg (by simp [stepCall, CallOut.isChecked])]
+        exact this.2.2
+      | _ => simp [Call.isCheck] at hc
+    · have hc' : c.isCheck = false := by simpa using hc
+      rw [List.filter_cons_of_pos (by simp [hc'])]
+      have h1 := stepCall_congr cfg hs e ha r r' h hp c hc'
+      have := ih _ _ h1.1 h1.2.1
+      simp only [runCalls]
+      refine ⟨this.1, this.2.1, ?_⟩
+      have hno : (stepCall cfg hs e r c).2.isChecked = false := by
+        cases c <;> first | rfl | (simp [Call.isCheck] at hc')
+      rw [List.filter_cons_of_pos (by simp [hno]), this.2.2, h1.2.2]
+
+/-- a whole block depends only on tree, volatile memory, index and height when every hook is
+    re-aimed -/
+theorem execBlock_congr (ha : AllAimed hs) (n n' : Node K V C T H D) (h : CEq n n') (txs : List T) :
+    (execBlock cfg hs e n txs).2 = (execBlock cfg hs e n' txs).2 ∧
+    (execBlock cfg hs e n txs).1.consensus = (execBlock cfg hs e n' txs).1.consensus := by
+  have h1 := beginBlock_congr cfg hs e ha n n' h
+  have h2 := deliverAll_congr cfg hs e txs _ _ h1
+  have h3 := endBlock_congr cfg hs e ha _ _ h2.1
+  have h4 := commit_congr cfg hs _ _ h3
+  have h5 := CEq.of_consensus h4
+  simp only [execBlock]
+  refine ⟨by rw [h2.2, h5.1, h.1], ?_⟩
+  simp only [Node.consensus, Consensus.mk.injEq] at h4 ⊢
+  exact ⟨h4.1, h4.2.1, h4.2.2.1, by rw [h4.2.2.2.1, h2.2], h4.2.2.2.2⟩
+
+/-! ### the write log and `reopen` -/
+
+theorem savedPrefixLen_append_save (l : List (TreeOp K V)) :
+    savedPrefixLen (l ++ [.save]) = l.length + 1 := by
+  induction l with
+  | nil => rfl
+  | cons op t ih =>
+    simp only [List.cons_append, savedPrefixLen, ih, List.length_cons]
+    simp
+
+theorem savedPrefixLen_take (l : List (TreeOp K V)) :
+    savedPrefixLen (l.take (savedPrefixLen l)) = savedPrefixLen l := by
+  induction l with
+  | nil => rfl
+  | cons op t ih =>
+    by_cases hn : savedPrefixLen t > 0
+    · have h1 : savedPrefixLen (op :: t) = savedPrefixLen t + 1 := by
+        simp [savedPrefixLen, hn]
+      rw [h1, List.take_succ_cons]
+      simp [savedPrefixLen, ih, hn]
+    · cases op with
+      | save =>
+        have h1 : savedPrefixLen (TreeOp.save :: t) = 1 := by simp [savedPrefixLen, hn]
+        rw [h1]
+        simp [savedPrefixLen]
+      | set k v =>
+        have h1 : savedPrefixLen (TreeOp.set k v :: t) = 0 := by simp [savedPrefixLen, hn]
+        rw [h1]; rfl
+      | remove k =>
+        have h1 : savedPrefixLen (TreeOp.remove k :: t) = 0 := by simp [savedPrefixLen, hn]
+        rw [h1]; rfl
+
+theorem st_commit_log (c : Cfg K V) (s : St K V) :
+    (s.commit c).tree.log = s.tree.log ++ (s.cache.map (toTreeOp c) ++ [.save]) := by
+  simp only [St.commit]
+  rw [(commit_fields _).2.2.1, writeInto_log, List.append_assoc]
+
+theorem reopen_log (t : Tree K V) : t.reopen.log = t.log.take (savedPrefixLen t.log) := by
+  unfold Tree.reopen
+  simp only []
+  split <;> rfl
+
+theorem reopen_rot (t : Tree K V) : t.reopen.rot = t.rot := by
+  unfold Tree.reopen
+  simp only []
+  split <;> rfl
+
+theorem reopen_eq_self (t : Tree K V) (h1 : t.working = t.reopen.working)
+    (h2 : t.log = t.log.take (savedPrefixLen t.log)) : t.reopen = t := by
+  have hf := reopen_fields t
+  have hl := reopen_log t
+  have hr := reopen_rot t
+  generalize t.reopen = t' at *
+  obtain ⟨w, vs, v, lg, rot⟩ := t
+  obtain ⟨w', vs', v', lg', rot'⟩ := t'
+  simp only at h1 h2 hf hl hr
+  rw [← h2] at hl
+  rw [h1, hf.1, hf.2, hl, hr]
+
+theorem saved_find (t : Tree K V) (wf : t.WF) :
+    t.saved.versions.find? (fun p => p.1 = t.version + 1) = some (t.version + 1, t.working) := by
+  unfold Tree.saved
+  simp only [List.find?_append]
+  have : t.versions.find? (fun p => decide (p.1 = t.version + 1)) = none := by
+    rw [List.find?_eq_none]
+    intro p hp
+    have := (wf.2.1 p hp).2
+    simp only [decide_eq_true_eq]
+    omega
+  rw [this]
+  simp
+
+theorem deleteVersion_find_latest (t : Tree K V) (rel : Int) :
+    (t.deleteVersion rel).versions.find? (fun p => p.1 = t.version) =
+      t.versions.find? (fun p => p.1 = t.version) := by
+  rcases deleteVersion_versions t rel with h | ⟨hne, h⟩
+  · rw [h]
+  · rw [h, find?_filter_of_imp]
+    intro x hx
+    simp only [decide_eq_true_eq] at hx
+    simp only [ne_eq, decide_not, Bool.not_eq_eq_eq_not, Bool.not_true, decide_eq_false_iff_not]
+    rw [hx]; exact fun e => hne e.symm
+
+theorem commit_find (t : Tree K V) (wf : t.WF) :
+    t.commit.versions.find? (fun p => p.1 = t.version + 1) = some (t.version + 1, t.working) := by
+  have hs := saved_find t wf
+  have hv : t.saved.version = t.version + 1 := rfl
+  rcases commit_cases t with h | ⟨r, h⟩ | ⟨r1, r2, h⟩ <;> rw [h]
+  · exact hs
+  · have := deleteVersion_find_latest t.saved r
+    rw [hv] at this
+    exact this.trans hs
+  · have h1 := deleteVersion_find_latest t.saved r1
+    have h2 := deleteVersion_find_latest (t.saved.deleteVersion r1) r2
+    rw [(deleteVersion_fields t.saved r1).2.1, hv] at h2
+    rw [hv] at h1
+    exact h2.trans (h1.trans hs)
+
+/-- right after a commit the tree is what a restart would load -/
+theorem commit_at_boundary (t : Tree K V) (wf : t.WF) :
+    t.commit.working = t.commit.reopen.working ∧
+    t.commit.log = t.commit.log.take (savedPrefixLen t.commit.log) := by
+  have hf := commit_fields t
+  constructor
+  · have hfind := commit_find t wf
+    unfold Tree.reopen
+    simp only []
+    rw [hf.2.1, hfind]
+    exact hf.1
+  · rw [hf.2.2.1, savedPrefixLen_append_save]
+    exact (List.take_of_length_le (by simp)).symm
+
+/-! ### insertion sort -/
+
+theorem insertKey_perm (lt : K → K → Bool) (k : K) (l : List K) :
+    (insertKey lt k l).Perm (k :: l) := by
+  induction l with
+  | nil => exact List.Perm.refl _
+  | cons h t ih =>
+    unfold insertKey
+    split
+    · exact List.Perm.refl _
+    · exact (List.Perm.cons h ih).trans (List.Perm.swap k h t)
+
+theorem sortKeys_perm (lt : K → K → Bool) (l : List K) : (sortKeys lt l).Perm l := by
+  induction l with
+  | nil => exact List.Perm.refl _
+  | cons h t ih =>
+    show (insertKey lt h (sortKeys lt t)).Perm (h :: t)
+    exact (insertKey_perm lt h _).trans (List.Perm.cons h ih)
+
+theorem insertKey_sorted (lt : K → K → Bool)
+    (irrefl : ∀ a, lt a a = false)
+    (trans : ∀ a b c, lt a b = true → lt b c = true → lt a c = true)
+    (k : K) (l : List K) (hl : l.Pairwise (fun a b => lt b a = false)) :
+    (insertKey lt k l).Pairwise (fun a b => lt b a = false) := by
+  induction l with
+  | nil => simp [insertKey]
+  | cons h t ih =>
+    have hl' := List.pairwise_cons.mp hl
+    unfold insertKey
+    split
+    · next hkh =>
+      refine List.pairwise_cons.mpr ⟨?_, hl⟩
+      intro b hb
+      rcases List.mem_cons.mp hb with rfl | hb
+      · cases hbk : lt b k with
+        | false => rfl
+        | true => have := trans _ _ _ hkh hbk; rw [irrefl] at this; cases this
+      · cases hbk : lt b k with
+        | false => rfl
+        | true =>
+          have := trans _ _ _ hbk hkh
+          rw [hl'.1 b hb] at this; cases this
+    · next hkh =>
+      refine List.pairwise_cons.mpr ⟨?_, ih hl'.2⟩
+      intro b hb
+      rcases List.mem_cons.mp ((insertKey_perm lt k t).subset hb) with rfl | hb
+      · simpa using hkh
+      · exact hl'.1 b hb
+
+theorem sortKeys_sorted (lt : K → K → Bool)
+    (irrefl : ∀ a, lt a a = false)
+    (trans : ∀ a b c, lt a b = true → lt b c = true → lt a c = true)
+    (l : List K) : (sortKeys lt l).Pairwise (fun a b => lt b a = false) := by
+  induction l with
+  | nil => exact List.Pairwise.nil
+  | cons h t ih => exact insertKey_sorted lt irrefl trans h _ ih
+
+/-! ### crash -/
+
+theorem crash_eq_of (boot : Tree K V → Vol C V) (n n' : Node K V C T H D)
+    (ht : n.tree = n'.tree) (hi : n.idx = n'.idx) (hc : n.closed = n'.closed) :
+    crash boot hs n = crash boot hs n' := by
+  obtain ⟨t, d, c, v, i, a, h, cl⟩ := n
+  obtain ⟨t', d', c', v', i', a', h', cl'⟩ := n'
+  simp only at ht hi hc
+  subst ht hi hc
+  rfl
+
+theorem atBoundary_reopen {n : Node K V C T H D} (hb : n.AtBoundary) : n.tree.reopen = n.tree :=
+  reopen_eq_self _ hb.2.2.1 hb.2.2.2.1
+
+theorem crash_boundary (boot : Tree K V → Vol C V) (n : Node K V C T H D) (hb : n.AtBoundary)
+    (hv : n.vol = boot n.tree) :
+    (crash boot hs n).AtBoundary ∧ CEq (crash boot hs n) n ∧
+    (crash boot hs n).vol = boot (crash boot hs n).tree := by
+  have hr := atBoundary_reopen hb
+  have ht : (crash boot hs n).tree = n.tree := hr
+  refine ⟨?_, ⟨ht, ?_, rfl, ?_⟩, rfl⟩
+  · refine ⟨rfl, rfl, ?_, ?_, rfl⟩
+    · rw [ht]; exact hb.2.2.1
+    · rw [ht]; exact hb.2.2.2.1
+  · show boot n.tree.reopen = n.vol
+    rw [hr, hv]
+  · show n.tree.reopen.version = n.height
+    rw [hr]; exact hb.2.2.2.2.symm
+
+theorem execBlock_tree (n : Node K V C T H D) (txs : List T) :
+    (execBlock cfg hs e n txs).1.tree =
+      (writeInto cfg n.tree
+        (endBlock cfg hs e (deliverAll cfg hs e (beginBlock cfg hs e n) txs).1).dlv.cache).commit ∧
+    (execBlock cfg hs e n txs).1.height = n.height + 1 ∧
+    (execBlock cfg hs e n txs).1.dlv.sess = none ∧ (execBlock cfg hs e n txs).1.dlv.cache = [] := by
+  have h1 := beginBlock_frameB cfg hs e n
+  have h2 := deliverAll_frame cfg hs e txs (beginBlock cfg hs e n)
+  have h3 := endBlock_frameB cfg hs e (deliverAll cfg hs e (beginBlock cfg hs e n) txs).1
+  have ht := h3.1.trans (h2.1.trans h1.1)
+  have hh := h3.2.2.1.trans (h2.2.2.1.trans h1.2.2.1)
+  refine ⟨?_, ?_, rfl, rfl⟩
+  · simp only [execBlock, commit, St.commit, Ov.toSt]
+    rw [ht]
+  · simp only [execBlock, commit]
+    rw [hh]
+
+theorem execBlock_boundary (n : Node K V C T H D) (hb : n.AtBoundary) (wf : n.tree.WF)
+    (txs : List T) : (execBlock cfg hs e n txs).1.AtBoundary ∧ (execBlock cfg hs e n txs).1.tree.WF := by
+  obtain ⟨h1, h2, h3, h4⟩ := execBlock_tree cfg hs e n txs
+  generalize (endBlock cfg hs e (deliverAll cfg hs e (beginBlock cfg hs e n) txs).1).dlv.cache = cache at h1
+  have hv := writeInto_versions cfg cache n.tree
+  have wf' : (writeInto cfg n.tree cache).WF := WF_of_versions_eq _ _ hv.1 hv.2.1 wf
+  have hc := commit_at_boundary _ wf'
+  refine ⟨⟨h3, h4, ?_, ?_, ?_⟩, ?_⟩
+  · rw [h1]; exact hc.1
+  · rw [h1]; exact hc.2
+  · rw [h1, h2, (commit_fields _).2.1, hv.2.1, hb.2.2.2.2]
+  · rw [h1]; exact commit_WF _ wf'
 
 end OLP.Shell
